@@ -601,7 +601,7 @@ static Plan gen_plan(uint64_t runseed) {
     cfg.alloc_faults = O.batch == "sched_faults";
     cfg.file_faults = true;
     cfg.w_query = 40; cfg.w_alloc = 40; cfg.w_crystal = 20;
-    if (rp.chance(1, 3)) set_focus(rp, cfg);   // all tasks of the run concentrate on the same few entry points
+    if (rp.chance(1, 2)) { set_focus(rp, cfg); cfg.focus_strength = 1; }   // all tasks of the run concentrate on the same few entry points
     int maxo = nt <= 4 ? std::min(O.max_ops, 30) : std::max(3, std::min(O.max_ops, 120 / nt));
     for (int t = 0; t < nt; t++) {
       TaskPlan tp;
@@ -679,8 +679,9 @@ static Outcome evaluate(const Plan& p, bool count = true, bool keep_log = false)
     for (auto& op : p.tasks[0].ops) {
       if (!op.probe) continue;
       std::string key = probe_key(op, p.locale, p.tasks[0].tloc);
-      if (g_first_cache.count(key)) continue;
-      g_first_cache[key] = first_call(op, p.locale, p.seed, p.tasks[0].tloc);
+      if (!g_first_cache.count(key)) g_first_cache[key] = first_call(op, p.locale, p.seed, p.tasks[0].tloc);
+      std::string keyC = probe_key(op, LOC_C, 0);
+      if (!g_first_cache.count(keyC)) g_first_cache[keyC] = first_call(op, LOC_C, p.seed, 0);
     }
     Outcome o = run_forked(p, keep_log);
     if (count) accumulate_counters();
@@ -691,7 +692,26 @@ static Outcome evaluate(const Plan& p, bool count = true, bool keep_log = false)
       if (!op.probe || !got.done) continue;
       const OpResult& want = g_first_cache[probe_key(op, p.locale, p.tasks[0].tloc)];
       if (!want.done) continue;
-      if (got.digest != want.digest || got.failed != want.failed) {
+      if (got.digest == want.digest && got.failed == want.failed) {
+        // independent of the history.  "A function of its arguments alone" also means: not of the locale the caller
+        // happens to run under -- the same call as first call of a fresh process under the plain C locale
+        const OpResult& wantC = g_first_cache[probe_key(op, LOC_C, 0)];
+        if (wantC.done && (got.digest != wantC.digest || got.failed != wantC.failed)) {
+          Sig s;
+          s.cls = "environment-dependence";
+          s.site = (op.kind == OK_Q || op.kind == OK_CR_MATH) ? op.fn : kOpNames[op.kind];
+          char b[360];
+          snprintf(b, sizeof b, "op %d (%s) digest %016llx failed=%d in locale configuration %s%s, but %016llx failed=%d under the C locale (both as first call of a fresh process)",
+                   op.id, op_to_text(op).substr(0, 120).c_str(), (unsigned long long)got.digest, got.failed, locale_name(p.locale),
+                   p.tasks[0].tloc ? " + caller's thread locale" : "", (unsigned long long)wantC.digest, wantC.failed);
+          s.detail = b; s.op = op.id;
+          bool dup = false;
+          for (auto& x : o.sigs) dup = dup || x.key() == s.key();
+          if (!dup) o.sigs.push_back(s);
+        }
+        continue;
+      }
+      {
         Sig s;
         s.cls = "history-dependence";
         s.site = (op.kind == OK_Q || op.kind == OK_CR_MATH) ? op.fn : kOpNames[op.kind];
@@ -1097,6 +1117,58 @@ static void enum_instance(uint64_t runseed, long index) {
   }
 }
 
+// systematic strata of the threads engine: for every entry point -- and, where it takes a shell / line / transition
+// code, for every value that has a branch of its own plus a sample of the ordinary ones -- a few small runs in which all
+// tasks call exactly that function with that code at the same time, with different elements and energies.  Random
+// focus (set_focus) reaches a given (function, code) pair a handful of times per quick run at best; a memo or lazily
+// built table inside ONE branch of ONE function needs exactly such a pair.
+struct TStratum { int q; int macro; bool has_macro; };
+static std::vector<TStratum> g_tstrata;
+static void build_tstrata() {
+  g_tstrata.clear();
+  for (int q = 0; q < g_nqueries; q++) {
+    const QueryDef& d = g_queries[q];
+    if (d.shape[0] == 'i' && d.shape[1] == 'i') {
+      const char* cls = d.cls[1] ? d.cls[1] : "";
+      std::vector<int> v;
+      if (!strcmp(cls, "line")) v = {3, 2, 1, 0, -1, -2, -3, -4, -13, -29, -50, -100, -200, -300, -383};
+      else if (!strcmp(cls, "trans")) for (int m = 0; m <= 14; m++) v.push_back(m);
+      else if (!strcmp(cls, "auger_trans")) v = {0, 1, 2, 17, 100, 500, 994, 995};
+      else for (int m = 0; m <= 30; m += (m < 10 ? 1 : 3)) v.push_back(m);
+      for (int m : v) g_tstrata.push_back({q, m, true});
+    } else g_tstrata.push_back({q, 0, false});
+  }
+}
+static Plan tstratum_plan(const TStratum& ts, uint64_t runseed) {
+  Plan p;
+  p.engine = O.engine; p.batch = O.batch; p.data = O.data; p.seed = O.seed; p.runseed = runseed;
+  Rng r(splitmix64(runseed ^ tag_of("tstratum")));
+  p.locale = r.chance(3, 4) ? LOC_C : LOC_CUTF8;
+  const QueryDef& d = g_queries[ts.q];
+  static const int Zs[] = {13, 20, 26, 29, 47, 56, 74, 79, 82, 92};
+  std::vector<std::string> strs;
+  if (strchr(d.shape, 's')) for (int j = 0; j < 3; j++) { bool isnull; std::string f = gen_compound_arg(r, &isnull); if (!isnull) strs.push_back(f); }
+  int nt = r.range(2, 4);
+  for (int t = 0; t < nt; t++) {
+    TaskPlan tp;
+    int n = r.range(3, 6);
+    for (int k = 0; k < n; k++) {
+      Op o = gen_query_op_for(r, p.next_id++, ts.q);
+      if (d.shape[0] == 'i' && r.chance(9, 10)) o.i[0] = Zs[r.below(sizeof Zs / sizeof Zs[0])];
+      if (ts.has_macro) o.i[1] = ts.macro;
+      if (!strs.empty() && r.chance(4, 5)) { o.s = strs[r.below(strs.size())]; o.snull = false; }
+      o.keep = 0; o.fail = 0;
+      tp.ops.push_back(o);
+    }
+    p.tasks.push_back(tp);
+  }
+  Rng rs(splitmix64(runseed ^ tag_of("sched")));
+  if (rs.chance(1, 2)) { p.sched.policy = SP_TARGETED; p.sched.param = 2; }
+  else { p.sched.policy = SP_RANDOM; static const int ps[] = {16, 64, 256}; p.sched.param = ps[rs.below(3)]; }
+  p.sched.seed = rs.next();
+  return p;
+}
+
 // systematic strata: one (function, Z block) sweep over every macro value in and around the legal range
 struct Stratum { int q; int zlo, zhi; };
 static std::vector<Stratum> g_strata;
@@ -1277,6 +1349,7 @@ int main(int argc, char** argv) {
     }
   }
   if (O.batch == "strata") build_strata();
+  if (O.batch == "sched_strata") build_tstrata();
   double t0 = now_s();
   long done = 0;
   for (long k = 0; k < O.count; k++) {
@@ -1289,6 +1362,11 @@ int main(int argc, char** argv) {
       if (O.tier == "thorough" && i >= 16 * (long)g_strata.size()) break;   // every stratum 16 times, each with other continuous arguments
       const Stratum& s = g_strata[(size_t)((uint64_t)i * 2654435761ULL % g_strata.size())];
       one_run(stratum_plan(O.tier == "thorough" ? g_strata[(size_t)i % g_strata.size()] : s, runseed), -1);
+    } else if (O.batch == "sched_strata") {
+      if (g_tstrata.empty()) break;
+      if (O.tier == "thorough" && i >= 8 * (long)g_tstrata.size()) break;   // every stratum 8 times
+      const TStratum& ts = O.tier == "thorough" ? g_tstrata[(size_t)i % g_tstrata.size()] : g_tstrata[(size_t)((uint64_t)i * 2654435761ULL % g_tstrata.size())];
+      one_run(tstratum_plan(ts, runseed), i);
     } else {
       Plan p = gen_plan(runseed);
       one_run(p, i);
